@@ -622,3 +622,10 @@ func init() {
 		mutant{Name: "fields-promoted-through-named-fields", Prop: "C05", File: "interp/type.go", Old: "\t\t\t\tif tias && !f.embed {\n\t\t\t\t\t// Only the fields of an embedded field are promoted.\n\t\t\t\t\tcontinue\n\t\t\t\t}\n", New: "", Rule: "R05.21", Key: "itype.lookupField/field-loop#1/only-embedded-fields-promote"},
 	)
 }
+
+func init() {
+	addMutants(
+		// D142 reverted (one comparison)
+		mutant{Name: "method-depth-compared-with-the-path-length", Prop: "C05", File: "interp/cfg.go", Old: "\t\t\t\t\t\tif d >= 0 && d < len(ti)-1 {\n\t\t\t\t\t\t\tgoto tryMethods\n\t\t\t\t\t\t}\n\t\t\t\t\t\tif d == len(ti)-1 {\n", New: "\t\t\t\t\t\tif d >= 0 && d < len(ti) {\n\t\t\t\t\t\t\tgoto tryMethods\n\t\t\t\t\t\t}\n\t\t\t\t\t\tif d == len(ti) {\n", Rule: "R05.22", Key: "cfg/selector/method-vs-field-depth#1/same-unit"},
+	)
+}
